@@ -142,7 +142,7 @@ PROPS = {
                 "non-trivial = both sides non-empty with a proper non-empty overlap at some step, or a non-commutative operator "
                 "with the literal on the left; distinct by case hash",
         "assumptions": ["the bool modifier and on/ignoring/group_* are not generated (outside the statement)",
-                        "comparison operators and % are only generated over integer-valued sides (counts, byte counts, their sum/max/count): they turn a last-bit floating-point difference of an order-dependent sum into 0/1"],
+                        "comparison operators, % and ^ are only generated over integer-valued sides (counts, byte counts, their sum/max/count): they turn a last-bit floating-point difference of an order-dependent sum into 0/1"],
         "quick": [rapid("TestC12", 1500)],
         "thorough": [rapid("TestC12", 60000, shards=16, timeout=3000)],
     },
@@ -251,7 +251,7 @@ PROPS = {
                 "offloaded; distinct by case hash",
         "assumptions": [
             "mixed and/or predicates are always parenthesised; juxtaposition is only generated in front of an identifier",
-            "!= ip() line filters only over lines with exactly one address; addresses are delimited by characters outside [0-9a-fA-F:.]",
+            "!= ip() line filters only over lines with exactly one address; addresses are delimited by characters outside [0-9a-fA-F:.]; an ip() filter after line_format is skipped (a template can glue an address to hex-looking text)",
             "the texts of __error__ / __error_details__ are not specified, only their presence",
             "a line filter starting with != or !~ is not generated directly after 'drop a' / 'keep a' (grammar ambiguity)",
             "JSON documents have unique keys, int64-range integers and finite floats; noise lines are not JSON from their first byte",
